@@ -21,6 +21,7 @@ CONFIG = dict(
           "overlapping opens and, after they were all closed, was closed once more; distinct by history hash."),
     assumptions=["TestC27ConcurrentDrops: after every holder closed the shared store, 2-4 holders drop it at the same time over an underlying store whose Drop takes 50-400 microseconds (10 runs per case); only the drop/close counts are judged there", "an OpenDB call whose underlying open fails (injected fault) is not an open for the reference count, but counts as an open attempt for the bound of one underlying drop per open (weaker reading)", "single-threaded histories (races are the subject of C28)",
                  "stale handles (of a name that was fully closed and opened again) are not used any more"],
+    level_more='Unit TestC27OpenDuringSlowClose: harness-owned schedule, opens of a name while its last Close is held inside a slow underlying Close.',
     units=[
         dict(test="TestC27", quick=20000, thorough=3200000, shards=16, steps=40),
         dict(test="TestC27Regression", kind="plain"),
